@@ -33,13 +33,22 @@ fn parse_header(header: &str) -> Result<Header, ParseError> {
         return Err(ParseError::HeaderTooLong);
     }
 
+    // Once the byte after the first `\r` is present no further input can change the outcome.
+    let terminated = header
+        .find(CARRIAGE_RETURN)
+        .map_or(false, |index| index + PROTOCOL_SUFFIX.len() <= header.len());
+
     let mut iterator = header
         .splitn(PARTS, |c| c == SEPARATOR || c == CARRIAGE_RETURN)
         .peekable();
 
     let prefix = iterator.next().ok_or(ParseError::MissingPrefix)?;
 
-    if !prefix.is_empty() && PROTOCOL_PREFIX.starts_with(prefix) && header.ends_with(prefix) {
+    if !terminated
+        && !prefix.is_empty()
+        && PROTOCOL_PREFIX.starts_with(prefix)
+        && header.ends_with(prefix)
+    {
         return Err(ParseError::Partial);
     } else if prefix != PROTOCOL_PREFIX {
         return Err(ParseError::InvalidPrefix);
@@ -48,7 +57,7 @@ fn parse_header(header: &str) -> Result<Header, ParseError> {
     let addresses = match iterator.next() {
         Some(TCP4) => {
             let (source_address, destination_address, source_port, destination_port) =
-                parse_addresses::<Ipv4Addr, _>(&mut iterator)?;
+                parse_addresses::<Ipv4Addr, _>(&mut iterator, terminated)?;
 
             Addresses::Tcp4(IPv4 {
                 source_address,
@@ -59,7 +68,7 @@ fn parse_header(header: &str) -> Result<Header, ParseError> {
         }
         Some(TCP6) => {
             let (source_address, destination_address, source_port, destination_port) =
-                parse_addresses::<Ipv6Addr, _>(&mut iterator)?;
+                parse_addresses::<Ipv6Addr, _>(&mut iterator, terminated)?;
 
             Addresses::Tcp6(IPv6 {
                 source_address,
@@ -77,7 +86,8 @@ fn parse_header(header: &str) -> Result<Header, ParseError> {
             return Err(ParseError::MissingProtocol)
         }
         Some(protocol)
-            if !protocol.is_empty()
+            if !terminated
+                && !protocol.is_empty()
                 && header.ends_with(protocol)
                 && (TCP4.starts_with(protocol) || UNKNOWN.starts_with(protocol)) =>
         {
@@ -87,12 +97,11 @@ fn parse_header(header: &str) -> Result<Header, ParseError> {
         None => return Err(ParseError::MissingProtocol),
     };
 
-    let newline = iterator
-        .next()
-        .filter(|s| !s.is_empty())
-        .ok_or(ParseError::MissingNewLine)?;
+    let newline = iterator.next().filter(|s| !s.is_empty());
 
-    if newline != NEWLINE || !header.ends_with(PROTOCOL_SUFFIX) {
+    if newline.is_none() && !terminated {
+        return Err(ParseError::MissingNewLine);
+    } else if newline != Some(NEWLINE) || !header.ends_with(PROTOCOL_SUFFIX) {
         return Err(ParseError::InvalidSuffix);
     }
 
@@ -105,13 +114,17 @@ fn parse_header(header: &str) -> Result<Header, ParseError> {
 /// Parses the addresses and ports from a PROXY protocol header for IPv4 and IPv6.
 fn parse_addresses<'a, T: FromStr<Err = AddrParseError>, I: Iterator<Item = &'a str>>(
     iterator: &mut I,
+    terminated: bool,
 ) -> Result<(T, T, u16, u16), ParseError> {
-    let source_address = iterator.next().ok_or(ParseError::MissingSourceAddress)?;
-    let destination_address = iterator
-        .next()
-        .ok_or(ParseError::MissingDestinationAddress)?;
-    let source_port = iterator.next().ok_or(ParseError::MissingSourcePort)?;
-    let destination_port = iterator.next().ok_or(ParseError::MissingDestinationPort)?;
+    // A field can only still be on its way while the line is not terminated.
+    let mut next = |error| match iterator.next() {
+        None if terminated => Ok(""),
+        field => field.ok_or(error),
+    };
+    let source_address = next(ParseError::MissingSourceAddress)?;
+    let destination_address = next(ParseError::MissingDestinationAddress)?;
+    let source_port = next(ParseError::MissingSourcePort)?;
+    let destination_port = next(ParseError::MissingDestinationPort)?;
 
     let source_address = source_address
         .parse::<T>()
